@@ -18,6 +18,7 @@ RULE = ('Hypothesis write requests: 1-3 tables (1-5 columns of i2/i4/i8/f4/f8/S<
         'fresh read: names, column order, dtypes, row order, ints/strings equal, floats bit-identical (NaNs identified), '
         'header text.  Non-trivial = >=1 row and one of: string needing quotes, extreme integer, non-finite / denormal / '
         'huge float, array column, enum, >=2 tables, header pair, unicode column.  Distinct = distinct case hash.')
+RULE += "  Also: header keywords that are the parser's own words (struct, enum, symbols), array columns of length 10/12, big-endian record arrays, comments as str/list."
 ASSUMPTIONS = [
     'texts the format cannot express are not generated: double quote, leading {, } inside string-array elements, {{}}-like '
     'substring (the format notation for the empty string), backslash ending the last column or a header value, non-ASCII, NUL, '
